@@ -167,9 +167,12 @@ Definition ensure_grounded (m : mstate) (o : nat) : mstate * oinfo * list event 
 Definition objs_reads (m : mstate) (oi : oinfo) : list event :=
   match o_objs oi with Some p => [Read (OSt p, 2)] | None => [] end.
 
-(* is_applicable: serialises the state, copies its fluent values into the operator's precondition leaves *)
+(* is_applicable: walks the state's facts, copies its fluent values into the operator's precondition leaves; a
+   quantified precondition is grounded per problem object against an extended COPY of the schema's signature
+   ({**action.signature, var: type}: a read of the shared dict) *)
 Definition ev_applicable (m : mstate) (o : nat) (oi : oinfo) (si : sinfo) : list event :=
   map Read (st_cells si) ++ objs_reads m oi
+  ++ [Read (sig_cell (o_dom oi) (o_act oi))]
   ++ map Write (region (OOp o) (o_base oi) (a_pre (o_sh oi))).
 
 (* numeric effects of the cached groups applied to the new state s (info si), leaves starting at index i *)
